@@ -496,7 +496,7 @@ structure MutatorOK (σ σ' : St) (new pushed : List Nat) : Prop where
   newMark : ∀ a ∈ new, σ'.marked a = (σ.phase != .idle)
   newGray : σ.phase = .marking → ∀ a ∈ new, a ∈ σ'.gray
   marks : ∀ a ∈ σ.heap, σ'.marked a = σ.marked a ∨
-    (σ.phase = .marking ∧ σ.marked a = false ∧ σ'.marked a = true ∧ a ∈ σ'.gray)
+    (σ.phase = .marking ∧ σ.marked a = false ∧ σ'.marked a = true ∧ a ∈ σ'.gray ∧ Reach σ a)
   gray : σ'.gray = pushed ++ σ.gray
   pushedOk : ∀ a ∈ pushed, a ∈ σ'.heap ∧ σ'.marked a = true
   pushedMarking : σ.phase ≠ .marking → pushed = []
@@ -542,7 +542,7 @@ theorem mutator_inv {σ σ' : St} {new pushed : List Nat} (h : Inv σ) (m : Muta
     have hh' : σ'.heap = σ'.todo := heap_of_done_nil (by rw [m.done]; exact h.done)
     have mono : ∀ a ∈ σ.todo, σ.marked a = true → σ'.marked a = true := by
       intro a ha hm
-      rcases m.marks a (by rw [hh]; exact ha) with e | ⟨_, _, e, _⟩
+      rcases m.marks a (by rw [hh]; exact ha) with e | ⟨_, _, e, _, _⟩
       · rw [e]; exact hm
       · exact e
     refine ⟨by rw [m.done]; exact h.done, ?_, ?_, ?_, ?_⟩
@@ -571,7 +571,7 @@ theorem mutator_inv {σ σ' : St} {new pushed : List Nat} (h : Inv σ) (m : Muta
           exact mono c (h.closed p hp1 c h2) this
         | false =>
           exfalso
-          rcases m.marks p h1 with e | ⟨_, _, _, e⟩
+          rcases m.marks p h1 with e | ⟨_, _, _, e, _⟩
           · rw [e, hmp] at hm; cases hm
           · exact hng e
       · exact h1
@@ -672,9 +672,9 @@ theorem mutatorOKb_sound {σ σ' : St} {fuel : Nat} (h : mutatorOKb σ σ' fuel 
     · exact absurd hp h
     · exact h
   · intro a ha
-    rcases h7 a ha with h | ⟨⟨⟨ha1, ha2⟩, ha3⟩, ha4⟩
+    rcases h7 a ha with h | ⟨⟨⟨⟨ha1, ha2⟩, ha3⟩, ha4⟩, ha5⟩
     · exact Or.inl h
-    · exact Or.inr ⟨ha1, ha2, ha3, ha4⟩
+    · exact Or.inr ⟨ha1, ha2, ha3, ha4, reachList_sound σ fuel a ha5⟩
   · have := List.take_append_drop (σ'.gray.length - σ.gray.length) σ'.gray; rw [h8a] at this; exact this.symm
   · intro a ha; exact h8c a ha
   · intro hp
